@@ -328,7 +328,25 @@ def shaped(obj):
     return True
 
 
+ROOT_SHAPES = {
+    # spellings of the root element a file from another tool may carry; every answer must be a
+    # Document or a ParserException
+    "ns-default": '<odML xmlns="http://www.g-node.org/odml" version="1.1">%s</odML>',
+    "ns-prefix": '<o:odML xmlns:o="http://www.g-node.org/odml" version="1.1">%s</o:odML>',
+    "upper": '<ODML version="1.1">%s</ODML>',
+    "extra-attr": '<odML version="1.1" generator="x">%s</odML>',
+    "version-spaces": '<odML version=" 1.1 ">%s</odML>',
+    "pi-comment": '<?pi x?><!-- c --><odML version="1.1"><!-- c -->%s<?pi y?></odML>',
+    "doctype": '<!DOCTYPE odML [<!ENTITY e "ent">]><odML version="1.1"><author>&e;</author>%s</odML>',
+}
+
+
 def shape_bytes(shape):
+    if shape["kind"] == "root":
+        body = "<section><name>s</name><type>t</type><property><name>p</name><value>1</value>" \
+               "</property></section>"
+        return ('<?xml version="1.0" encoding="UTF-8"?>\n' + ROOT_SHAPES[shape["depth"]] % body +
+                "\n").encode()
     d = shape["depth"]
     body = "".join("<section><name>s%d</name><type>t</type>" % i for i in range(d)) + "</section>" * d
     return ('<?xml version="1.0" encoding="UTF-8"?>\n<odML version="1.1">%s</odML>\n' % body).encode()
@@ -469,6 +487,16 @@ def run_case(case):
                  lambda: ODMLReader("XML", show_warnings=False).from_string(damaged)),
                 ("odml.load", True, lambda: odml.load(path, "xml", show_warnings=False)),
             ]
+            # from_file also takes file like objects: text mode, binary mode, and one whose .name is
+            # a descriptor number (os.fdopen / tempfile.TemporaryFile)
+            entries.append(("XMLReader.lenient.from_file(fileobj:rb)", True,
+                            lambda: XMLReader(ignore_errors=True, show_warnings=False).from_file(open(path, "rb"))))
+            entries.append(("XMLReader.strict.from_file(fileobj:fd)", False,
+                            lambda: XMLReader(show_warnings=False).from_file(
+                                os.fdopen(os.open(path, os.O_RDONLY), "rb"))))
+            entries.append(("ODMLReader.from_file(fileobj:fd)", True,
+                            lambda: ODMLReader("XML", show_warnings=False).from_file(
+                                os.fdopen(os.open(path, os.O_RDONLY), "rb"))))
             if text is not None:
                 entries.append(("XMLReader.lenient.from_string(str)", True,
                                 lambda: XMLReader(ignore_errors=True, show_warnings=False).from_string(text)))
@@ -677,7 +705,8 @@ def explore(run_seed, tier, known=None):
         case["kinds"] = rng.sample(storage_faults.KINDS, rng.randint(1, 3))   # swarm
     if rng.random() < 0.03:
         case["fmt"] = "xml"
-        case["shape"] = {"kind": "deep", "depth": rng.choice(DEPTHS)}
+        case["shape"] = {"kind": "deep", "depth": rng.choice(DEPTHS)} if rng.random() < 0.5 else \
+            {"kind": "root", "depth": rng.choice(sorted(ROOT_SHAPES))}
         case["faults"] = [] if rng.random() < 0.7 else "generate"
         case["kinds"] = ["bitflip", "truncate"]
     return run_case(case)
